@@ -41,7 +41,27 @@ p = subprocess.run(["/venv/bin/python", "/verif/tools/baseline.py", wt], capture
 meta["baseline"] = p.stdout.strip().splitlines()[0] if p.stdout.strip() else "no output"
 meta["baseline_missing"] = [l.strip() for l in p.stdout.splitlines() if "NO LONGER PASSING" in l]
 meta["baseline_wall_s"] = round(time.time() - t0)
-meta["confirmed"] = rc0 == 0 and rc1 != 0 and p.returncode == 0
+base_ok = p.returncode == 0
+if not base_ok and meta["baseline_missing"]:
+    # tests with short wall-clock timeouts fail under machine load: re-run exactly the missing tests alone
+    ids = []
+    for l in meta["baseline_missing"]:
+        t = l.split("NO LONGER PASSING:")[1].strip()
+        mod, name = t.split("::")
+        parts = mod.split(".")
+        if parts[-1][0].isupper():  # tests.test_x.Class::name
+            ids.append("/".join(parts[:-1]) + ".py::" + parts[-1] + "::" + name)
+        else:
+            ids.append("/".join(parts) + ".py::" + name)
+    ok_alone = True
+    for _ in range(2):
+        q = subprocess.run(["/venv/bin/python", "-m", "pytest", "-q", "-p", "no:cacheprovider", "--timeout=900"] + ids, cwd=wt, env=env, capture_output=True, text=True)
+        ok_alone = q.returncode == 0
+        if ok_alone:
+            break
+    meta["missing_tests_rerun_alone"] = dict(tests=ids, passed=ok_alone, tail=q.stdout[-300:])
+    base_ok = ok_alone
+meta["confirmed"] = rc0 == 0 and rc1 != 0 and base_ok
 dst = f"/verif/seeded/{sid}"
 os.makedirs(dst, exist_ok=True)
 for f in ("patch.diff", "demo.py", "notes.md"):
